@@ -118,6 +118,19 @@ pub fn generate(ctx: &mut Ctx, rep: &mut Report, emit: &mut dyn FnMut(&mut Ctx, 
     }
     for c in 0u8..0x80 { for s in [format!("{}f88071a", c as char), format!("1{}", c as char), format!("{}{}", c as char, c as char)] { emit(ctx, rep, format!("hex.dec {}", hex(s.as_bytes()))); } }
     rep.exhaustive_parts.push("unhexify with each of ~8000 single foreign characters (all < U+0800; low byte = hex digit code in every 256-block of the BMP) inside valid hex text".into());
+    // the CLI decode path (src/main.rs) hands its argument to unhexify: text that is not an even number of hex
+    // digits must not come out as a decoded bundle there either (only when the real binary is available)
+    if std::env::var("BP7_CLI").is_ok() {
+        let mut r2 = Rng::new(ctx.seed ^ 0xc18);
+        for _ in 0..ctx.n(12, 300) {
+            let mut b = crate::gen::gen_valid_bundle(&mut r2);
+            let h = hex(&b.to_cbor());
+            if h.len() > 4000 { continue; }
+            let variants = [h.clone(), h.to_uppercase(), format!(" {}", h), format!("{} ", h), format!("{}\n", h), format!("\t{}", h), format!("{}\u{a0}", h), format!("0x{}", h), format!("0X{}", h),
+                format!("+{}", &h[1..]), format!("{}0", h), format!("{}g0", &h[..h.len() - 2]), format!("{}\u{130}{}", &h[..2], &h[3..])];
+            for v in variants { emit(ctx, rep, format!("cli.decode p arg {}", hex(v.as_bytes()))); }
+        }
+    }
     // random
     let mut rng = Rng::new(ctx.seed ^ 0x18);
     let n = ctx.n(20_000, 1_000_000);
